@@ -564,7 +564,7 @@ def main(run):
     for nm in models():
         m = built[nm.name]
         for terminal in ("first_order", "data"):
-            for (nsim, unant, ant) in ((3, (0,), (1,)), (3, (0, 1), ()), (4, (0, 2), (1, 3)), (4, (1, 3), (2,))):
+            for (nsim, unant, ant) in ((3, (0,), (1,)), (3, (0, 1), ()), (3, (0, 1), (2,)), (4, (0, 2), (1, 3)), (4, (1, 3), (2,))):
                 if quick and (nsim > 3 or (terminal == "data" and unant == (0, 1))):
                     continue
                 if nm.name == "rbc" and unant == (1, 3):
@@ -603,7 +603,7 @@ def main(run):
                 run.error(f"equations:{nm.name}:period_by_period", exc)
         if nm.linear or nm.loglinear:
             for method in (("stacked_time", "period_by_period") if nm.backward else ("stacked_time",)):
-                for (nsim, unant, ant) in ((3, (0,), (1,)), (3, (0, 1), ()), (4, (0, 2), (1, 3)), (4, (1, 3), (2,))):
+                for (nsim, unant, ant) in ((3, (0,), (1,)), (3, (0, 1), ()), (3, (0, 1), (2,)), (4, (0, 2), (1, 3)), (4, (1, 3), (2,))):
                     if (method == "period_by_period" and ant) or (quick and nsim > 3):
                         continue
                     try:
